@@ -8,7 +8,7 @@ let rej_s = function
   | RUnbound -> "unbound" | RUnusedLet -> "unused-let" | RLetIj -> "let-ij" | RHeaderParam -> "header-param"
   | RNoTemplate -> "no-template" | RUndeclaredParam -> "undeclared-param" | RMissingParam -> "missing-param"
   | RBadCallParam -> "bad-call-param" | RLoopFunc -> "loop-func" | RUnusedParam -> "unused-param"
-  | RBothParamKinds -> "both-param-kinds" | RNoNamespace -> "no-namespace" | RShape -> "shape"
+  | RBothParamKinds -> "both-param-kinds" | RDuplicateTemplate -> "duplicate-template" | RNoNamespace -> "no-namespace" | RShape -> "shape"
 
 (* (files (file xName xText NODE...) ...) *)
 let files_of = function
